@@ -129,6 +129,26 @@ func goCheck(api schemeAPI, hash, pw string, rnd uint32) string {
 	})
 }
 
+// tooCostly: Params (cheap: parsing only) reports an accepted cost beyond the suite's budget.
+func tooCostly(scheme, ps string) bool {
+	f := strings.Fields(ps)
+	if len(f) < 5 || f[0] != "ok" {
+		return false
+	}
+	var rounds, memory uint64
+	fmt.Sscan(f[2], &rounds)
+	fmt.Sscan(f[3], &memory)
+	switch scheme {
+	case "bcrypt":
+		return rounds > 8
+	case "argon2":
+		return memory > 1<<14 || rounds*memory > 1<<16
+	case "desext":
+		return rounds > 1<<18
+	}
+	return rounds > 20000
+}
+
 func goParams(api schemeAPI, hash string) string {
 	return safely(func() string {
 		s, err := api.params(hash)
@@ -207,6 +227,9 @@ func suiteScheme(c *Ctx) {
 				}
 			}
 			cost := api.costs[li%len(api.costs)]
+			if api.name == "sunmd5" {
+				cost = api.costs[(li/3)%len(api.costs)] // at quick only every third length runs: still rotate through the costs
+			}
 			if api.name == "sha1" && cost[0] == 4294967295 && li > 3 && !c.Thorough() {
 				cost = api.costs[0] // one random-rounds request per quick run (≈ 20 000 HMAC rounds each)
 			}
@@ -320,6 +343,9 @@ func suiteScheme(c *Ctx) {
 	}
 }
 
+var numRe = regexp.MustCompile(`[0-9]+`)
+var groupRe = regexp.MustCompile(`[a-z]+=[0-9]+(,[a-z]+=[0-9]+)+`)
+
 func equivDES(a, b []byte) bool {
 	if len(a) > 8 {
 		a = a[:8]
@@ -404,6 +430,56 @@ func suiteClassify(c *Ctx) {
 				muts = append(muts, strings.Join(drop, "$"))
 			}
 			muts = append(muts, h+"$junk", h+"$a=1,b=2", h+"$garbage,", h+"$", h+"$$", h+",", "$x$"+h, "_"+h, h+h)
+			// numeric fields: values that wrap around the field width, huge values, signs (out-of-range costs)
+			var must []string
+			for _, loc := range numRe.FindAllStringIndex(h, -1) {
+				num := h[loc[0]:loc[1]]
+				if loc[0] > 0 && strings.ContainsRune(cryptAlpha[2:]+"+/", rune(h[loc[0]-1])) && h[loc[0]-1] != '=' {
+					continue // digits inside a salt / digest text
+				}
+				var v uint64
+				fmt.Sscan(num, &v)
+				for _, alt := range []string{fmt.Sprint(v + 256), fmt.Sprint(v + 65536), fmt.Sprint(v + 1<<32), fmt.Sprintf("%d", v) + "0000000000", "18446744073709551616",
+					"18446744073709551615", "4294967296", "4294967295", "256", "255", "0", "00" + num, "+" + num, "-" + num, "0x" + num, num + "_", " " + num} {
+					must = append(must, h[:loc[0]]+alt+h[loc[1]:])
+				}
+			}
+			// parameter groups: a member duplicated (same value, and a different value first)
+			for _, loc := range groupRe.FindAllStringIndex(h, -1) {
+				g := h[loc[0]:loc[1]]
+				ms := strings.Split(g, ",")
+				for i, m := range ms {
+					dup := append(append(append([]string{}, ms[:i+1]...), m), ms[i+1:]...)
+					must = append(must, h[:loc[0]]+strings.Join(dup, ",")+h[loc[1]:])
+					if eq := strings.Index(m, "="); eq > 0 {
+						other := m[:eq+1] + "7" + m[eq+1:]
+						dup2 := append(append(append([]string{}, ms[:i]...), other), ms[i:]...)
+						must = append(must, h[:loc[0]]+strings.Join(dup2, ",")+h[loc[1]:])
+						dup3 := append(append(append([]string{}, ms[:i+1]...), other), ms[i+1:]...)
+						must = append(must, h[:loc[0]]+strings.Join(dup3, ",")+h[loc[1]:])
+					}
+				}
+			}
+			// the last two digest positions against every alphabet symbol (unused-bit respellings of the digest)
+			{
+				alpha := cryptAlpha
+				if api.name == "argon2" {
+					alpha = stdAlpha
+				}
+				for pos := len(h) - 2; pos < len(h); pos++ {
+					for _, a := range []byte(alpha) {
+						if pos >= 0 && a != h[pos] {
+							t := h[:pos] + string(a) + h[pos+1:]
+							must = append(must, t)
+							if r := goCheck(api, t, pw, 0); r == "nil" {
+								c.Fail("tampered-digest-accepted", api.name+".Check accepts a hash whose digest text differs in its last symbols",
+									map[string]string{"suite": "classify", "scheme": api.name, "hash": hx([]byte(t)), "password": hx([]byte(pw))})
+							}
+							c.Direct++
+						}
+					}
+				}
+			}
 			// sample when there are too many (malformed ones are cheap; well-formed ones run the KDF)
 			stride := 1
 			if len(muts) > maxOps {
@@ -414,12 +490,33 @@ func suiteClassify(c *Ctx) {
 				off = c.Rng.Intn(stride)
 			}
 			seen := map[string]bool{}
+			// the structured edits above are never sampled away
+			idx := []int{}
 			for i := off; i < len(muts); i += stride {
+				idx = append(idx, i)
+			}
+			base := len(muts)
+			muts = append(muts, must...)
+			for i := base; i < len(muts); i++ {
+				idx = append(idx, i)
+			}
+			for _, i := range idx {
 				m := muts[i]
 				if seen[m] {
 					continue
 				}
 				seen[m] = true
+				ps := ""
+				if api.params != nil {
+					ps = goParams(api, m)
+					c.Op("params "+api.name+" "+hx([]byte(m)), ps)
+				}
+				if tooCostly(api.name, ps) {
+					// a well-formed hash whose (in-range) cost would take minutes or terabytes: acceptance is
+					// compared through Params only
+					c.Count(api.name + ":costly-skipped")
+					continue
+				}
 				for _, p := range []string{pw, "wrong"} {
 					if p == "wrong" && i%5 != 0 {
 						continue
@@ -430,9 +527,6 @@ func suiteClassify(c *Ctx) {
 					if r == "panic" || r == "timeout" {
 						c.Fail("check-"+r, api.name+".Check did not return normally: "+lastPanic, map[string]string{"suite": "classify", "scheme": api.name, "hash": hx([]byte(m)), "password": hx([]byte(p))})
 					}
-				}
-				if api.params != nil {
-					c.Op("params "+api.name+" "+hx([]byte(m)), goParams(api, m))
 				}
 			}
 			c.NonTrivial(fmt.Sprintf("%s:%d", api.name, hi))
